@@ -24,6 +24,8 @@ def nargs(name, d, opt=None):
         return d + 1
     if name in ("ref_prefix", "posref"):
         return 1
+    if name in ("ref_startpos", "posref_startpos"):
+        return 2
     if name == "append":
         return 2 if d == 1 else 3
     if name == "extend":
@@ -95,6 +97,16 @@ def _apply(name, d, f, t, a, opt):
         r += a[d]
     elif name == "ref_prefix":
         f.getPayloadRef(a[0])
+    elif name in ("ref_startpos", "posref_startpos") and any(f.coords[i] == a[0] for i in range(min(opt["s"], len(f.coords)))):
+        # a search-start hint that skips the very element it looks for is outside the contract (getPayload asserts coords[start_pos] <= coord);
+        # a hint that merely points past the place where a *missing* coordinate belongs is handled (the insertion re-searches) and is in scope
+        return
+    elif name == "ref_startpos":
+        r = f.getPayloadRef(a[0], start_pos=opt["s"])
+        if d == 1:
+            r <<= a[1]
+    elif name == "posref_startpos":
+        f.getPositionRef(a[0], start_pos=opt["s"])
     elif name == "posref":
         f.getPositionRef(a[0])
     elif name == "append":
